@@ -283,7 +283,15 @@ class Hist:
             if not hasattr(n, "map_over") or not n.inputs:
                 return
             ps = rng.sample(list(n.inputs), rng.randint(1, min(2, len(n.inputs))))
-            self._do("n", lambda: n.map_over(*ps), f"(OMapOver {c_nat(loc)} {self.P(ps)})", f"node#{loc}.map_over({ps})")
+            new, err = self._do("n", lambda: n.map_over(*ps), f"(OMapOver {c_nat(loc)} {self.P(ps)})", f"node#{loc}.map_over({ps})")
+            if err is None and new is not None and rng.random() < 0.6:
+                # derive from the mapped node by renaming a mapped parameter: the mapped node (the receiver) must keep its map_over list
+                loc2 = self.nn - 1
+                m = {rng.choice(ps): self.new_name("p")}
+                term = f"(OWithInputs {c_nat(loc2)} {self.batch_term(m)})"
+                _new2, err2 = self._do("n", lambda: new.with_inputs(m), term, f"node#{loc2}.with_inputs({m})")
+                if err2 is not None:
+                    self.emit(term, ("raise",), f"node#{loc2}.with_inputs({m}) raised {type(err2).__name__}")
         else:
             for p in n.inputs:
                 n.has_default_for(p)
@@ -347,7 +355,7 @@ def run(ctx):
     nontrivial = set()
     n_eval = 0
     cases = {}
-    for ci in range(ctx.n(60, 900)):
+    for ci in range(ctx.n(200, 900)):
         H = Hist(rng, N)
         for _ in range(rng.randint(8, 26 if ctx.quick() else 40)):
             try:
